@@ -11,7 +11,11 @@ for id in $ids; do
   wt=/tmp/seedwt_$id
   rm -rf $wt; git -C /repo worktree prune; git -C /repo worktree add -q --detach $wt HEAD || continue
   if ! git -C $wt apply $d/patch.diff; then echo "$id: PATCH DOES NOT APPLY" | tee /verif/out/seedmatrix/$id.txt; git -C /repo worktree remove --force $wt; continue; fi
-  props=$(python3 -c "import json;print(' '.join(json.load(open('$d/meta.json'))['related_properties']))")
+  # cheapest checks first (measured quick-tier cost), so that FAST=1 stops early
+  props=$(python3 -c "
+import json
+cost={'C16':3,'C19':3,'C08':4,'C17':5,'C02':11,'C09':13,'C07':13,'C13':13,'C05':21,'C06':23,'C20':28,'C18':28,'C11':44,'C12':50,'C10':67,'C14':87,'C04':88,'C15':121,'C03':236,'C01':406}
+print(' '.join(sorted(json.load(open('$d/meta.json'))['related_properties'],key=lambda p:cost.get(p,999))))")
   : > /verif/out/seedmatrix/$id.txt
   for p in $props; do
     # FAST=1: stop at the first check that catches the change
